@@ -106,7 +106,7 @@ structure InvC (s : State) : Prop where
     s.waiter = false ∧ (∀ d, d < s.nDaemons → s.dm d ≠ .running) ∧ s.orphans = 0
   resultNone : s.rt ≠ .exited → s.result = none
   resultSome : s.rt = .exited → ∃ r, s.result = some r
-  resRaised : s.result = some .raised → s.rootFailed = true
+  resRaised : s.result = some .raised → s.rootFailed = true ∨ s.hungFailed = true
   resReturned : s.result = some .returned → s.rootFailed = false
   pastWait : scPastWait s.sc = true → ∀ r, r ≠ .startupCleanup → (s.st (.root r)).ended = true
   cleanupB : s.cleanupBegun = true →
